@@ -484,7 +484,8 @@ func runC15(c *core.Ctx) {
 	// and not recycled while queued (C10), the transport wrappers keep one write sink (C17-R1)
 	c.Rule("R6", "response bytes are not altered or reordered below the codec: private queue buffers, one write sink (shared with C10-R1/R4/R6, C17-R1)", 3)
 	importObligations(c, runC10, "R6", func(o *core.Obligation) bool { return o.Rule == "R1" || o.Rule == "R4" || o.Rule == "R6" })
-	importObligations(c, runC17, "R6", func(o *core.Obligation) bool { return o.Rule == "R1" })
+	importObligations(c, runC17, "R6", func(o *core.Obligation) bool { return o.Rule == "R1" || o.Rule == "R5" })
+	importObligations(c, runC02, "R6", func(o *core.Obligation) bool { return o.Rule == "R7" })
 	// the close request is issued only under request.Close
 	if loopFn != nil {
 		hc := lookupNamedT(p.TPkg(""), "HandlerContext")
